@@ -825,8 +825,13 @@ func (db *ContractDB) loadFile(path, pkgPrefix string) {
 				continue
 			}
 			rest := strings.TrimSpace(t[13:])
-			// at <anchor>: lhs = rhs
+			// at <anchor>: lhs := rhs  (the anchor itself may contain a colon, e.g. functype:T)
 			i := strings.Index(rest, ":")
+			if ja := strings.Index(rest, ":="); ja > 0 {
+				if k := strings.LastIndex(rest[:ja], ":"); k >= 0 {
+					i = k
+				}
+			}
 			if !strings.HasPrefix(rest, "at ") || i < 0 {
 				fail(l.n, "bad ghost-update")
 				continue
